@@ -64,6 +64,7 @@ theorem apply0_queue_frame (w : World) (l : Label) (b : BId) (h : writesQueue l 
     unfold applySched
     cases hA : w.act p <;> simp
   case hStart => simp [apply0]
+  case hCancel => simp [apply0]
   case hEnd i out =>
     simp only [apply0]
     split <;> (try split) <;> (try split) <;> simp
